@@ -5,7 +5,8 @@ EXTENDS Bounds, TLC, Json, IOUtils, SequencesExt
 Size(n) == IF n = 1 THEN 3 ELSE IF n = 2 THEN 4 ELSE 6
 OneOff(n) == {[i \in 1..Size(n) |-> IF i = k THEN v ELSE 1] : k \in 1..Size(n), v \in Values}
 TwoOff(n) == {[i \in 1..Size(n) |-> IF i = 1 THEN v ELSE IF i = Size(n) THEN w ELSE 1] : v \in Values, w \in Values}
-Cases == {[entity |-> e, n |-> 0, kind |-> k, policy |-> p, vs |-> <<v>>] : e \in {"double", "quantity"}, k \in Kinds, p \in Policies, v \in Values}
+\* scalars and scalar quantities go through the overloads inherited / redefined by BoundsCheck<n> for each n
+Cases == {[entity |-> e, n |-> n, kind |-> k, policy |-> p, vs |-> <<v>>] : e \in {"double", "quantity"}, n \in 1..3, k \in Kinds, p \in Policies, v \in Values}
          \cup UNION {{[entity |-> e, n |-> n, kind |-> k, policy |-> p, vs |-> vs] :
                        e \in {"stensor", "qstensor"}, k \in Kinds, p \in Policies, vs \in OneOff(n) \cup TwoOff(n)} : n \in 1..3}
 Number(S) == LET s == SetToSeq(S) IN [i \in 1..Len(s) |-> [id |-> i] @@ s[i]]
